@@ -44,6 +44,7 @@ type decCase struct {
 var mutNames = []string{
 	"valid", "coord+p", "coord=p", "coord=2^256-1", "bitflip", "all-zero", "truncated", "trailing-bytes",
 	"coord=0", "negated", "coord=p-1", "coord=random", "bad-prefix", "zeros-with-coord=1", "x=0", "coords-sparse-in-montgomery-form",
+	"y-satisfies-one-component-only", "point-of-another-curve",
 }
 
 const (
@@ -63,6 +64,8 @@ const (
 	mZeros1
 	mXZero
 	mMont
+	mComp
+	mOtherB
 )
 
 func encLen(g int, comp bool) (length, ncoord, off int) {
@@ -88,7 +91,7 @@ func genDec(g int) func(t *rapid.T) decCase {
 		}
 		L, _, _ := encLen(g, c.Comp)
 		c.Src = rapid.SampledFrom([]int{0, 0, 0, 0, 0, 0, 1, 1, 1, 2}).Draw(t, "src")
-		c.Mut = rapid.SampledFrom([]int{mValid, mValid, mPlusP, mPlusP, mPlusP, mEqP, mMax, mFlip, mFlip, mZero, mTrunc, mTrail, mCoord0, mNeg, mPm1, mRand, mPrefix, mZeros1, mXZero, mMont, mMont}).Draw(t, "mut")
+		c.Mut = rapid.SampledFrom([]int{mValid, mValid, mPlusP, mPlusP, mPlusP, mEqP, mMax, mFlip, mFlip, mZero, mTrunc, mTrail, mCoord0, mNeg, mPm1, mRand, mPrefix, mZeros1, mXZero, mMont, mMont, mComp, mComp, mOtherB, mOtherB}).Draw(t, "mut")
 		c.Coord = rapid.IntRange(0, 11).Draw(t, "coord")
 		c.Bit = rapid.IntRange(0, 8*L-1).Draw(t, "bit")
 		c.Len = rapid.IntRange(1, 40).Draw(t, "len")
@@ -235,6 +238,94 @@ func baseEncoding(c decCase, r *h.Rec, wantCoord int) (enc []byte, note string, 
 	}
 }
 
+// otherB1 / otherB2: constants of curves that are not the one being decoded.
+func otherB1() []*big.Int {
+	v := []int64{4, 6, -5, 15, 10, 20, 1, 25, 0}
+	out := make([]*big.Int, len(v))
+	for i, x := range v {
+		out[i] = fp.small(x)
+	}
+	return out
+}
+
+func otherB2() []fp2 {
+	z := func(c0, c1 int64) fp2 { return fp2{fp.small(c0), fp.small(c1)} }
+	// 5 (the curve before twisting), -5u, 5u with one coefficient off, 3b, 5/u-like (-5u/2 * ... ) variants, 5+5u, 0
+	return []fp2{z(5, 0), z(0, -5), z(1, 5), z(0, 6), z(0, 4), z(-1, 5), z(0, 15), z(5, 5), z(0, 10), z(-10, 0), z(0, 0)}
+}
+
+// craftOffCurve returns replacement y coordinates (in wire order) for the x
+// found in co. Everything is canonical; the result is off the curve unless a
+// coincidence of probability ~1/p happens, which the oracle (decide) would
+// simply classify as on-curve.
+func craftOffCurve(c decCase, co []*big.Int) ([]*big.Int, string, bool) {
+	for _, v := range co {
+		if v.Cmp(bnP) >= 0 {
+			return nil, "", false
+		}
+	}
+	f := gen.Fill(gen.Mix(c.Seed, 0xc0ffee), 64)
+	if c.G == 1 {
+		x := co[0]
+		bs := otherB1()
+		for k := 0; k < len(bs); k++ {
+			b := bs[(c.Bit+k)%len(bs)]
+			rhs := fp.add(fp.mul(fp.mul(x, x), x), b)
+			if y, ok := fpSqrt(rhs); ok && y.Sign() != 0 {
+				if c.Bit&64 != 0 {
+					y = fp.sub(big.NewInt(0), y)
+				}
+				return []*big.Int{y}, fmt.Sprintf("G1-point-of-y2=x3+%v", b), true
+			}
+		}
+		return nil, "", false
+	}
+	x := fp2FromWire(co[0], co[1], wireHighFirst)
+	wire := func(y fp2) []*big.Int {
+		if wireHighFirst {
+			return []*big.Int{y.C1, y.C0}
+		}
+		return []*big.Int{y.C0, y.C1}
+	}
+	if c.Mut == mOtherB {
+		bs := otherB2()
+		for k := 0; k < len(bs); k++ {
+			b := bs[(c.Bit+k)%len(bs)]
+			rhs := f2.add(f2.mul(f2.mul(x, x), x), b)
+			if y, ok := fp2Sqrt(rhs); ok && !f2.isZero(y) {
+				return wire(y), fmt.Sprintf("G2-point-of-y2=x3+(%v+%vu)", b.C0, b.C1), true
+			}
+		}
+		return nil, "", false
+	}
+	rhs := e2.rhs(x) // r0 + r1 u; (y0 + y1 u)^2 = y0^2 - 2 y1^2 + 2 y0 y1 u
+	two := big.NewInt(2)
+	switch c.Bit % 3 {
+	case 0: // only the u coefficient right: y0 drawn, y1 = r1 / (2 y0)
+		y0 := redP(f[:32])
+		if y0.Sign() == 0 {
+			y0 = big.NewInt(1)
+		}
+		y1 := fp.mul(rhs.C1, fp.inv(fp.mul(two, y0)))
+		return wire(fp2{y0, y1}), "G2-only-u-coefficient-of-equation-holds", true
+	case 1: // only the constant coefficient right: y1 drawn, y0 = sqrt(r0 + 2 y1^2)
+		y1 := redP(f[:32])
+		for k := 0; k < 64; k++ {
+			if y0, ok := fpSqrt(fp.add(rhs.C0, fp.mul(two, fp.mul(y1, y1)))); ok {
+				return wire(fp2{y0, y1}), "G2-only-constant-coefficient-of-equation-holds", true
+			}
+			y1 = fp.add(y1, big1)
+		}
+		return nil, "", false
+	default: // from a true root (y0, y1): (y0/2, 2 y1) keeps the product y0 y1, i.e. the u coefficient
+		y, ok := fp2Sqrt(rhs)
+		if !ok || y.C0.Sign() == 0 || y.C1.Sign() == 0 {
+			return nil, "", false
+		}
+		return wire(fp2{fp.mul(y.C0, fp.inv(two)), fp.mul(two, y.C1)}), "G2-(y0/2,2y1)-from-a-valid-root", true
+	}
+}
+
 // montInv returns the canonical field element whose Montgomery image (x*2^256
 // mod p, the library's internal form on every backend) is m. m < p.
 func montInv(m *big.Int) *big.Int {
@@ -375,6 +466,22 @@ func mutate(c decCase, r *h.Rec, enc []byte) []byte {
 			}
 			for i := 0; i < nx; i++ {
 				setCoord(out, off, i, big.NewInt(0))
+			}
+		}
+	case mComp, mOtherB:
+		// Off-curve points that are wrong in exactly one respect, built with the
+		// exact model from the x of the encoding at hand (uncompressed forms):
+		// mComp: y^2 agrees with x^3 + b in all but one Fp coefficient of the
+		// equation (G2: only the u part right / only the constant part right;
+		// G1 has a single coefficient, so it falls back to mOtherB);
+		// mOtherB: a genuine point of the curve y^2 = x^3 + b' for another b'
+		// (a twist, a neighbouring constant, 3b, -b, b with one coefficient changed).
+		if full && !c.Comp && c.G != 12 {
+			if y, label, ok := craftOffCurve(c, coordsOf(out, off, ncoord)); ok {
+				r.Label(label)
+				for i, v := range y {
+					setCoord(out, off, ncoord/2+i, v)
+				}
 			}
 		}
 	case mMont:
@@ -964,6 +1071,29 @@ func TestC09_DecodeFixed(t *testing.T) {
 			raw(2, false, cat(c0, c0, c0, c0))
 			raw(2, false, cat(ca, ca, ca, ca))
 			raw(2, false, cat(z(32), c0, z(32), ca))
+		}
+		// ... and a single internal bit in each of the other limbs alone
+		for l := 1; l < 4; l++ {
+			for _, b := range []int{0, 1, 7, 8, 15, 31, 32, 62} {
+				c0 := be32(montInv(new(big.Int).Lsh(big1, uint(64*l+b))))
+				raw(1, false, cat(c0, c0))
+				raw(2, false, cat(c0, c0, c0, c0))
+				raw(2, false, cat(c0, z(32), c0, z(32)))
+				raw(2, false, cat(z(32), c0, z(32), c0))
+			}
+		}
+		// crafted off-curve points from [1]Gen and [7]Gen: every component-wise
+		// variant and every other-curve constant
+		for _, k := range []int64{1, 7} {
+			b1 := g1Bytes(e1.mul(gen1, big.NewInt(k)))
+			b2 := g2Bytes(e2.mul(gen2, big.NewInt(k)))
+			for bit := 0; bit < 12; bit++ {
+				for _, mut := range []int{mComp, mOtherB} {
+					emit(decCase{G: 1, Src: 2, Raw: b1, Mut: mut, Bit: bit, Seed: uint64(bit)})
+					emit(decCase{G: 2, Src: 2, Raw: b2, Mut: mut, Bit: bit, Seed: uint64(bit)})
+					emit(decCase{G: 2, Src: 2, Raw: b2, Mut: mut, Bit: bit, Seed: uint64(bit), Reuse: 1 + bit%9, Scrib: true})
+				}
+			}
 		}
 		// GT
 		raw(12, false, z(384))
